@@ -133,3 +133,126 @@ Definition ak (k : nat) (u : R) : R :=
 Definition bk (k : nat) (u : R) : R :=
   if (k <? 1)%nat then 0 else if (k <? 3)%nat then 1 else if (k <? 5)%nat then 1 - u/6 else 1 - u/6 + u*u/120.
 
+
+(* S = dt/2 * Omega(w)  and  u = (|w| dt/2)^2 *)
+Definition hS (dt wx wy wz : R) : list R := mscal4 (dt/2) (Omega4 wx wy wz).
+Definition uu (dt wx wy wz : R) : R := (dt/2)*(dt/2)*(wx*wx + wy*wy + wz*wz).
+
+Lemma hS_mul_I dt wx wy wz c : mmul4 (mscal4 c I4) (hS dt wx wy wz) = mscal4 c (hS dt wx wy wz).
+Proof. unfold hS, Omega4. unfold_m4. list_eq; ring. Qed.
+Lemma hS_mul_S dt wx wy wz c :
+  mmul4 (mscal4 c (hS dt wx wy wz)) (hS dt wx wy wz) = mscal4 (c * - uu dt wx wy wz) I4.
+Proof. unfold hS, uu, Omega4. unfold_m4. list_eq; field. Qed.
+
+(* TRUE matrix powers of S, for every exponent: S^(2n) = (-u)^n I,  S^(2n+1) = (-u)^n S *)
+Lemma hS_pow dt wx wy wz n :
+  mpow4 (hS dt wx wy wz) (2 * n) = mscal4 ((- uu dt wx wy wz) ^ n) I4 /\
+  mpow4 (hS dt wx wy wz) (S (2 * n)) = mscal4 ((- uu dt wx wy wz) ^ n) (hS dt wx wy wz).
+Proof.
+  induction n as [|n [IH0 IH1]].
+  - split.
+    + unfold_m4. list_eq; ring.
+    + cbn [Nat.mul Nat.add mpow4]. unfold hS, Omega4. unfold_m4. list_eq; ring.
+  - replace (2 * S n)%nat with (S (S (2 * n))) by lia.
+    assert (E : mpow4 (hS dt wx wy wz) (S (S (2 * n))) = mscal4 ((- uu dt wx wy wz) ^ S n) I4).
+    { change (mpow4 (hS dt wx wy wz) (S (S (2 * n)))) with (mmul4 (mpow4 (hS dt wx wy wz) (S (2 * n))) (hS dt wx wy wz)).
+      rewrite IH1, hS_mul_S. f_equal. simpl. ring. }
+    split; [exact E|].
+    change (mpow4 (hS dt wx wy wz) (S (S (S (2 * n))))) with (mmul4 (mpow4 (hS dt wx wy wz) (S (S (2 * n)))) (hS dt wx wy wz)).
+    rewrite E, hS_mul_I. reflexivity.
+Qed.
+
+Lemma factR k v : Z.of_nat (fact k) = v -> INR (fact k) = IZR v.
+Proof. intros <-. apply INR_IZR_INZ. Qed.
+Lemma F0 : INR (fact 0) = 1. Proof. exact (factR 0 1 eq_refl). Qed.
+Lemma F1 : INR (fact 1) = 1. Proof. exact (factR 1 1 eq_refl). Qed.
+Lemma F2 : INR (fact 2) = 2. Proof. exact (factR 2 2 eq_refl). Qed.
+Lemma F3 : INR (fact 3) = 6. Proof. exact (factR 3 6 eq_refl). Qed.
+Lemma F4 : INR (fact 4) = 24. Proof. exact (factR 4 24 eq_refl). Qed.
+Lemma F5 : INR (fact 5) = 120. Proof. exact (factR 5 120 eq_refl). Qed.
+Lemma F6 : INR (fact 6) = 720. Proof. exact (factR 6 720 eq_refl). Qed.
+Lemma F7 : INR (fact 7) = 5040. Proof. exact (factR 7 5040 eq_refl). Qed.
+Lemma F8 : INR (fact 8) = 40320. Proof. change (fact 8) with (8 * fact 7)%nat. rewrite mult_INR, F7. simpl INR. ring. Qed.
+Lemma F9 : INR (fact 9) = 362880. Proof. change (fact 9) with (9 * fact 8)%nat. rewrite mult_INR, F8. simpl INR. ring. Qed.
+Ltac facts := rewrite ?F0, ?F1, ?F2, ?F3, ?F4, ?F5, ?F6, ?F7, ?F8, ?F9.
+
+(* with TRUE matrix powers the order-k partial sum of exp(S) is  ak(u) I + bk(u) S  (orders 0..6) *)
+Lemma expsum_decomp dt wx wy wz k : (k <= 6)%nat ->
+  expsum (hS dt wx wy wz) k =
+  madd4 (mscal4 (ak k (uu dt wx wy wz)) I4) (mscal4 (bk k (uu dt wx wy wz)) (hS dt wx wy wz)).
+Proof.
+  intros Hk.
+  destruct (hS_pow dt wx wy wz 0) as [_ P1]. destruct (hS_pow dt wx wy wz 1) as [P2 P3].
+  destruct (hS_pow dt wx wy wz 2) as [P4 P5]. destruct (hS_pow dt wx wy wz 3) as [P6 _].
+  cbn [Nat.mul Nat.add] in P1, P2, P3, P4, P5, P6.
+  set (u := uu dt wx wy wz) in *.
+  do 7 (destruct k as [|k];
+    [cbn [expsum]; rewrite ?P1, ?P2, ?P3, ?P4, ?P5, ?P6; facts; unfold hS, Omega4; unfold_m4;
+     cbv [ak bk Nat.ltb Nat.leb]; repeat (apply cons_eq; [simpl pow; field|]); reflexivity|]).
+  lia.
+Qed.
+
+Lemma m4v_decomp a b S q : m4v (madd4 (mscal4 a I4) (mscal4 b S)) q = qadd (qscale a q) (qscale b (m4v S q)).
+Proof. unfold_m4. unfold_q. list_eq; ring. Qed.
+
+(* the un-normalised order-k series step, in closed scalar form *)
+Definition series_vec (k : nat) (dt wx wy wz : R) (q : list R) : list R :=
+  qadd (qscale (ak k (uu dt wx wy wz)) q) (qscale (bk k (uu dt wx wy wz)) (m4v (hS dt wx wy wz) q)).
+
+Lemma series_vec_is_partial_sum k dt wx wy wz q : (k <= 6)%nat ->
+  series_vec k dt wx wy wz q = m4v (expsum (hS dt wx wy wz) k) q.
+Proof. intros Hk. rewrite (expsum_decomp _ _ _ _ _ Hk), m4v_decomp. reflexivity. Qed.
+
+Lemma series_vec_norm2 k dt wx wy wz q :
+  qnorm2 (series_vec k dt wx wy wz q) =
+  qnorm2 q * (ak k (uu dt wx wy wz) * ak k (uu dt wx wy wz) + uu dt wx wy wz * (bk k (uu dt wx wy wz) * bk k (uu dt wx wy wz))).
+Proof. unfold series_vec, hS, Omega4. set (a := ak _ _). set (b := bk _ _). unfold uu. unfold_m4. unfold_q. field. Qed.
+
+(* ---- proof plumbing for the generated definitions ------------------------------------------------ *)
+(* the normalising Quaternion constructor at the end of a step *)
+Lemma normalize_val (a b c d a' b' c' d' s : R) : a = a' -> b = b' -> c = c' -> d = d' -> 0 < qnorm2 [a';b';c';d'] ->
+  s = sqrt (a*a+b*b+c*c+d*d) ->
+  (if Req_EM_T 0 s then Raise ValueError else Val [a / s; b / s; c / s; d / s]) = Val (qnormalize [a';b';c';d']).
+Proof.
+  intros -> -> -> -> P ->. unfold qnormalize. revert P. unfold_rot. intros P.
+  destruct (Req_EM_T 0 (sqrt (a'*a'+b'*b'+c'*c'+d'*d'))) as [Z|NZ].
+  - exfalso. symmetry in Z. apply sqrt_eq_0 in Z; lra.
+  - val_eq; unfold Rdiv; ring.
+Qed.
+Lemma eta4 (l : list R) : length l = 4%nat -> l = [e l 0; e l 1; e l 2; e l 3].
+Proof. intros L. destruct (len4 l L) as (a&b&c&d&->). reflexivity. Qed.
+Lemma let_intro {A B} (v : A) (f : A -> B) (r : B) : (forall x, x = v -> f x = r) -> (let x := v in f x) = r.
+Proof. intros Hx. exact (Hx v eq_refl). Qed.
+(* peel the outermost generated `let` without expanding the rest *)
+Ltac step := lazymatch goal with |- (let x := ?v in @?b x) = ?r => refine (let_intro v b r _); intros ? ?; cbv beta end.
+Lemma div_1 x : x / 1 = x. Proof. field. Qed.
+Lemma sqrt_gate_nz e0 (A : Type) (a b : A) : 0 < e0 -> (if Req_EM_T 0 (sqrt e0) then a else b) = b.
+Proof. intros P. destruct (Req_EM_T 0 (sqrt e0)) as [Z|_]; [|reflexivity]. exfalso. symmetry in Z. apply sqrt_eq_0 in Z; lra. Qed.
+Lemma sqrt_gate_z e0 (A : Type) (a b : A) : e0 = 0 -> (if Req_EM_T 0 (sqrt e0) then a else b) = a.
+Proof. intros ->. rewrite sqrt_0. destruct (Req_EM_T 0 0) as [_|N]; [reflexivity|congruence]. Qed.
+Lemma wsq_pos wx wy wz : wx*wx + wy*wy + wz*wz <> 0 -> 0 < wx*wx + wy*wy + wz*wz.
+Proof. intros H. nra. Qed.
+
+(* C08_series<k>_R = normalised scalar-form partial sum (run after `cbv beta delta [C08_series<k>_R]`).  The unit-norm
+   gate of the Quaternion constructor is decided while the body is still folded; the four components are then
+   polynomial identities closed by `field`. *)
+Ltac series_core H NZ P k dt wx wy wz w x y z :=
+  step; match goal with E : _ = sqrt _ |- _ => rewrite H, sqrt_1 in E; subst end; gate_01;
+  rewrite (sqrt_gate_nz _ _ _ _ (wsq_pos _ _ _ NZ)); rewrite ?div_1;
+  rewrite (eta4 (series_vec k dt wx wy wz [w;x;y;z]) eq_refl) in P |- *;
+  cbv zeta; eapply normalize_val; [ | | | | exact P | reflexivity]; clear P;
+  unfold series_vec, hS, uu, Omega4; unfold_m4; cbv [qadd ak bk Nat.ltb Nat.leb]; unfold_rot; field.
+
+(* positivity of the squared norm of the un-normalised series step for (|w| dt/2)^2 <= 1 *)
+Lemma series_norm_pos k u : (k <= 6)%nat -> 0 <= u <= 1 -> 0 < ak k u * ak k u + u * (bk k u * bk k u).
+Proof.
+  intros Hk [U0 U1]. do 7 (destruct k as [|k]; [cbv [ak bk Nat.ltb Nat.leb]; nra|]). lia.
+Qed.
+Lemma uu_ge0 dt wx wy wz : 0 <= uu dt wx wy wz.
+Proof. unfold uu. nra. Qed.
+Lemma series_vec_pos k dt wx wy wz w x y z : (k <= 6)%nat -> w*w+x*x+y*y+z*z = 1 -> uu dt wx wy wz <= 1 ->
+  0 < qnorm2 (series_vec k dt wx wy wz [w;x;y;z]).
+Proof.
+  intros Hk H U. rewrite series_vec_norm2. replace (qnorm2 [w;x;y;z]) with 1 by (unfold_rot; lra).
+  rewrite Rmult_1_l. apply series_norm_pos; [exact Hk|]. split; [apply uu_ge0|exact U].
+Qed.
